@@ -29,7 +29,7 @@ const (
 	NFSERR_NOT_SYNC    = 10002 // Update synchronization mismatch (sattrguard3)
 	NFSERR_NOTSUPP     = 10004 // Operation not supported
 	NFSERR_JUKEBOX     = 10008 // Server busy, try again later (used during policy drain)
-	NFSERR_DELAY       = 10013 // Server is temporarily busy (rate limit exceeded)
+	NFSERR_DELAY       = 10008 // Server is temporarily busy (rate limit exceeded, timeout): NFSv3 has no DELAY status of its own, "try again later" is NFS3ERR_JUKEBOX (10013 is not an nfsstat3 value)
 
 	// Alias for backward compatibility - use NFSERR_ACCES for NFS3 access denied errors
 	ACCESS_DENIED = NFSERR_ACCES
